@@ -270,6 +270,7 @@ func SpecKeepHeaderBlank(lines []string, hadHeader bool) []string {
 //@   checks[C09,C16] writes-formatted-bytes: implies(fsWrites() > old(fsWrites()), called(Join) && lastWriteData() == resultOf(Join, 0))
 //@   checks[C09,C10] formatted-text: implies(called(Join), resultOf(Join, 0) == utils.OpaqueJoinLines(SpecKeepHeaderBlank(SpecFmtEof(SpecWithHeader(SpecMapLines(scanLines(scanner), len(scanLines(scanner))), SpecHasHeader(SpecMapLines(scanLines(scanner), len(scanLines(scanner)))))), SpecHasHeader(SpecMapLines(scanLines(scanner), len(scanLines(scanner)))))))
 //@   checks[C16] error-means-no-write: implies(r != nil && !called(WriteFile), fsWrites() == old(fsWrites()))
+//@   checks[C09,C10] success-means-formatted-on-disk: implies(!checkOnly && r == nil, called(Join) && ((fsWrites() > old(fsWrites()) && lastWriteData() == resultOf(Join, 0)) || (called(ReadFile) && resultOf(ReadFile, 1) == nil && lastRead() == resultOf(Join, 0))))
 //@   checks[C09] check-verdict: implies(checkOnly && called(findUpperCaseCharacterClassOnIgnoreCaseFlag) && resultOf(ReadFile, 1) == nil, (r != nil) == (lastRead() != resultOf(Join, 0) || resultOf(findUpperCaseCharacterClassOnIgnoreCaseFlag, 0)))
 //@   checks[C09,C16] write-reported: implies(!checkOnly && called(WriteFile), (r != nil) == (resultOf(WriteFile, 0) != nil))
 //@   loop 0 invariant[C09,C10] 0 <= scanPos(scanner) && scanPos(scanner) <= len(scanLines(scanner))
@@ -659,6 +660,14 @@ func OpaqueGlob(pattern string) []string { m, _ := filepath.Glob(pattern); retur
 //@   checks[C08,C15] only-ra-files: implies(called(processFile), resultOf(Ext, 0) == ".ra" && argOf(processFile, 0) == filePath && argOf(processFile, 2) == checkOnly)
 //@   checks[C16,C09] a-failure-is-never-forgotten: implies(old(failed), failed)
 //@   checks[C16,C09] a-failure-is-recorded: implies(called(processFile) && resultOf(processFile, 0) != nil, failed)
+
+// ---- C18: generate hands the assembler exactly the bytes it read - the file's or stdin's -
+// so a file argument and the same bytes on stdin cannot give different results
+//@ contract createGenerateCommand#1
+//@   tags C18
+//@   checks[C18] file-bytes-reach-the-assembler-unchanged: implies(called(Run) && called(ReadFile), argOf(Run, 0) == lastRead())
+//@   checks[C18] stdin-bytes-reach-the-assembler-unchanged: implies(called(Run) && called(ReadAll), argOf(Run, 0) == resultOf(ReadAll, 0))
+//@   checks[C18] one-source: implies(called(Run), called(ReadFile) != called(ReadAll))
 
 // ---- C20: the running version handed to the updater must be comparable -------------------------
 // (a development build hands in "dev", which Release.LessOrEqual cannot parse)
